@@ -1,0 +1,53 @@
+//go:build verif
+
+// Package ociverif re-exports internal entry points for the external
+// verification harness (/verif). It is compiled only with the "verif" build tag.
+package ociverif
+
+import (
+	"net/url"
+
+	"cuelabs.dev/go/oci/ociregistry/internal/ocirequest"
+)
+
+type (
+	Request    = ocirequest.Request
+	Kind       = ocirequest.Kind
+	ParseError = ocirequest.ParseError
+)
+
+const (
+	ReqPing               = ocirequest.ReqPing
+	ReqBlobGet            = ocirequest.ReqBlobGet
+	ReqBlobHead           = ocirequest.ReqBlobHead
+	ReqBlobDelete         = ocirequest.ReqBlobDelete
+	ReqBlobStartUpload    = ocirequest.ReqBlobStartUpload
+	ReqBlobUploadBlob     = ocirequest.ReqBlobUploadBlob
+	ReqBlobMount          = ocirequest.ReqBlobMount
+	ReqBlobUploadInfo     = ocirequest.ReqBlobUploadInfo
+	ReqBlobUploadChunk    = ocirequest.ReqBlobUploadChunk
+	ReqBlobCompleteUpload = ocirequest.ReqBlobCompleteUpload
+	ReqManifestGet        = ocirequest.ReqManifestGet
+	ReqManifestHead       = ocirequest.ReqManifestHead
+	ReqManifestPut        = ocirequest.ReqManifestPut
+	ReqManifestDelete     = ocirequest.ReqManifestDelete
+	ReqTagsList           = ocirequest.ReqTagsList
+	ReqReferrersList      = ocirequest.ReqReferrersList
+	ReqCatalogList        = ocirequest.ReqCatalogList
+)
+
+var (
+	ErrNotFound          = ocirequest.ErrNotFound
+	ErrBadlyFormedDigest = ocirequest.ErrBadlyFormedDigest
+	ErrMethodNotAllowed  = ocirequest.ErrMethodNotAllowed
+	ErrBadRequest        = ocirequest.ErrBadRequest
+)
+
+// Parse is ocirequest.Parse.
+func Parse(method string, u *url.URL) (*Request, error) { return ocirequest.Parse(method, u) }
+
+// ParseRange is ocirequest.ParseRange.
+func ParseRange(s string) (start, end int64, ok bool) { return ocirequest.ParseRange(s) }
+
+// RangeString is ocirequest.RangeString.
+func RangeString(start, end int64) string { return ocirequest.RangeString(start, end) }
